@@ -44,69 +44,64 @@ const (
 const topicsRule = "rapid: histories of collect/update/register/deregister/replace/delete/restore/gate/burst over 3 topics x 4 event ids x 4 levels with queries after every step; " +
 	"non-trivial = some topic held >=2 event ids with different levels whose insertion order was not already (level desc, id asc) sorted; distinct by case hash"
 
+func genTOp(t *rapid.T) TOp {
+	op := TOp{T: rapid.SampledFrom([]int{0, 0, 0, 0, 0, 1, 1, 2}).Draw(t, "topic")}
+	k := rapid.IntRange(0, 99).Draw(t, "kind")
+	switch {
+	case k < 50:
+		op.K = "collect"
+		op.I = rapid.IntRange(0, 3).Draw(t, "id")
+		op.L = rapid.IntRange(0, 3).Draw(t, "level")
+	case k < 57:
+		op.K = "update"
+		op.I = rapid.IntRange(0, 3).Draw(t, "id")
+		op.L = rapid.IntRange(0, 3).Draw(t, "level")
+	case k < 70:
+		op.K = "reg"
+		op.H = rapid.IntRange(0, slotsPerTopic-1).Draw(t, "h")
+	case k < 77:
+		op.K = "dereg"
+		op.H = rapid.IntRange(0, slotsPerTopic-1).Draw(t, "h")
+		op.H2 = rapid.IntRange(0, 4).Draw(t, "unregistered") // 4: deregister a handler that is not registered
+	case k < 82:
+		op.K = "replace"
+		op.H = rapid.IntRange(0, slotsPerTopic-1).Draw(t, "h")
+		op.H2 = rapid.IntRange(0, slotsPerTopic-1).Draw(t, "h2")
+	case k < 86:
+		op.K = "delete"
+	case k < 91:
+		op.K = "restore"
+		op.R = make([]int, len(eventIDs))
+		for j := range op.R {
+			op.R[j] = rapid.IntRange(-1, 3).Draw(t, "rlevel")
+		}
+	case k < 97:
+		op.K = "gate"
+		op.H = rapid.IntRange(0, slotsPerTopic-1).Draw(t, "h")
+	default:
+		op.K = "ungate"
+		op.H = rapid.IntRange(0, slotsPerTopic-1).Draw(t, "h")
+	}
+	op.P = rapid.IntRange(0, len(topicPatterns)-1).Draw(t, "pattern")
+	op.M = rapid.IntRange(0, 3).Draw(t, "min")
+	return op
+}
+
+// genTopics draws the history as a slice of operations (rapid can then shrink by deleting steps).
 func genTopics(t *rapid.T) TopicsCase {
 	var c TopicsCase
-	n := rapid.IntRange(1, 40).Draw(t, "n")
-	burst := rapid.IntRange(0, 24).Draw(t, "burst") == 24 // the largest value: shrinking moves away from bursts
-	burstAt := -1
-	if burst {
-		burstAt = rapid.IntRange(0, n-1).Draw(t, "burstAt")
-	}
-	topic := func() int {
-		return rapid.SampledFrom([]int{0, 0, 0, 0, 0, 1, 1, 2}).Draw(t, "topic")
-	}
-	q := func(op TOp) TOp {
-		op.P = rapid.IntRange(0, len(topicPatterns)-1).Draw(t, "pattern")
-		op.M = rapid.IntRange(0, 3).Draw(t, "min")
-		return op
-	}
-	for i := 0; i < n; i++ {
-		if i == burstAt {
-			// a slow handler and more events than its queue holds
-			tp := topic()
-			h := rapid.IntRange(0, slotsPerTopic-1).Draw(t, "h")
-			c.Ops = append(c.Ops, q(TOp{K: "reg", T: tp, H: h}), q(TOp{K: "gate", T: tp, H: h}),
-				q(TOp{K: "burst", T: tp, I: rapid.IntRange(0, 3).Draw(t, "id"), L: rapid.IntRange(0, 3).Draw(t, "level"), N: rapid.IntRange(1, 40).Draw(t, "extra")}))
-			continue
-		}
-		k := rapid.IntRange(0, 99).Draw(t, "kind")
-		op := TOp{T: topic()}
-		switch {
-		case k < 50:
-			op.K = "collect"
-			op.I = rapid.IntRange(0, 3).Draw(t, "id")
-			op.L = rapid.IntRange(0, 3).Draw(t, "level")
-		case k < 57:
-			op.K = "update"
-			op.I = rapid.IntRange(0, 3).Draw(t, "id")
-			op.L = rapid.IntRange(0, 3).Draw(t, "level")
-		case k < 70:
-			op.K = "reg"
-			op.H = rapid.IntRange(0, slotsPerTopic-1).Draw(t, "h")
-		case k < 77:
-			op.K = "dereg"
-			op.H = rapid.IntRange(0, slotsPerTopic-1).Draw(t, "h")
-			op.H2 = rapid.IntRange(0, 4).Draw(t, "unregistered") // 4: deregister a handler that is not registered
-		case k < 82:
-			op.K = "replace"
-			op.H = rapid.IntRange(0, slotsPerTopic-1).Draw(t, "h")
-			op.H2 = rapid.IntRange(0, slotsPerTopic-1).Draw(t, "h2")
-		case k < 86:
-			op.K = "delete"
-		case k < 91:
-			op.K = "restore"
-			op.R = make([]int, len(eventIDs))
-			for j := range op.R {
-				op.R[j] = rapid.IntRange(-1, 3).Draw(t, "rlevel")
-			}
-		case k < 97:
-			op.K = "gate"
-			op.H = rapid.IntRange(0, slotsPerTopic-1).Draw(t, "h")
-		default:
-			op.K = "ungate"
-			op.H = rapid.IntRange(0, slotsPerTopic-1).Draw(t, "h")
-		}
-		c.Ops = append(c.Ops, q(op))
+	// rapid prefers short slices: a drawn minimum length keeps long histories frequent, and shrinks away first
+	min := rapid.IntRange(1, 30).Draw(t, "minOps")
+	c.Ops = rapid.SliceOfN(rapid.Custom(genTOp), min, 40).Draw(t, "ops")
+	if rapid.IntRange(0, 24).Draw(t, "burst") == 24 { // the largest value: shrinking moves away from bursts
+		// a slow handler and more events than its queue holds, somewhere in the history
+		tp := rapid.IntRange(0, 1).Draw(t, "burstTopic")
+		at := rapid.IntRange(0, len(c.Ops)).Draw(t, "burstAt")
+		triple := []TOp{{K: "reg", T: tp, H: rapid.IntRange(0, slotsPerTopic-1).Draw(t, "h")}, {K: "gate", T: tp},
+			{K: "burst", T: tp, I: rapid.IntRange(0, 3).Draw(t, "id"), L: rapid.IntRange(0, 3).Draw(t, "level"), N: rapid.IntRange(1, 40).Draw(t, "extra")}}
+		ops := append([]TOp(nil), c.Ops[:at]...)
+		ops = append(ops, triple...)
+		c.Ops = append(ops, c.Ops[at:]...)
 	}
 	return c
 }
